@@ -33,7 +33,7 @@ def convex(q):
 def tlc_design(ctx):
     consts = dict(Record="TRUE")
     if not ctx.quick:
-        consts.update(MaxLine=6, W=4, H=3)
+        consts.update(MaxLine=8, W=4, H=3)
     res = vlib.run_tlc(ctx, "MC_Geom", "MC_GeomNudge", workers=vlib.NCPU, timeout=1500, consts=consts, xmx="6g")
     cases = vlib.tlc_printed(res)
     if not cases:
@@ -73,13 +73,13 @@ def xform_cases(ctx, rng):
                 return [v for p in pts for v in p]
         raise vlib.Infra("no convex quadrilateral found")
     pairs = []
-    n = 300 if ctx.quick else 6000
+    n = 300 if ctx.quick else 30000
     for i in range(n):
         f = rng.choice([1, 1, 2])
         ks = rng.choice(["rect", "para", "persp", "persp"]); kd = rng.choice(["rect", "para", "persp", "persp"])
         pairs.append(dict(src=quad(ks, f), dst=quad(kd, f), f=f, m=rng.choice([1, 2, 4, 4, 8] if not ctx.quick else [1, 2, 4])))
     out = []
-    step = 500
+    step = 2000
     for lo in range(0, len(pairs), step):
         res = vlib.run_tlc(ctx, "MC_Geom", "MC_GeomXform", workers=1, timeout=1500, files={"quads.ndjson": pairs[lo:lo + step]})
         cs = vlib.tlc_printed(res)
@@ -95,7 +95,7 @@ def seeded_lines(ctx, rng):
     four edges, or beyond; images across the 32-bit word boundary"""
     out = []
     sizes = [(1, 1), (2, 3), (5, 4), (24, 24), (31, 33), (32, 32), (33, 31), (40, 64), (100, 7)]
-    reps = 60 if ctx.quick else 1200
+    reps = 60 if ctx.quick else 5000
     S = 16
 
     def place(size, cls):
@@ -146,7 +146,7 @@ def rand_image(rng, w, h):
 def seeded_samples(ctx, rng):
     out = []
     # --- exactly representable affine family: dyadic scale, rotations by 90 degrees, flips, dyadic shear
-    n = 700 if ctx.quick else 12000
+    n = 700 if ctx.quick else 50000
     big = 0
     for i in range(n):
         c = rng.choice([1, 2, 4, 8, 16, 32, 64])
@@ -204,7 +204,7 @@ def seeded_samples(ctx, rng):
         # the source square starts at a2/2: O is the image of the square's origin, cell centres are relative to it
         out.append(ev("sample", mode=i % 2, w=w, h=h, img=rand_image(rng, w, h), dimx=dimx, dimy=dimy, a2=a2, c=c, dst=dst))
     # --- perspective: integer-pixel quadrilaterals, square grids spanning the source square (QR-like inset 3.5 or none)
-    n = 250 if ctx.quick else 4000
+    n = 250 if ctx.quick else 16000
     for i in range(n):
         w, h = rng.randint(8, 40), rng.randint(8, 40)
         dim = rng.randint(1, 40) if rng.random() < 0.97 else rng.choice([101, 177])
